@@ -82,6 +82,7 @@ type Frame struct {
 	fvCell   map[*ssa.FreeVar]string
 	curBlock *ssa.BasicBlock
 	closureFrames map[ssa.Value]*Frame
+	witness  map[string]TV
 }
 
 func (c *Enc) newFrame(fn *ssa.Function, top bool) *Frame {
@@ -994,6 +995,9 @@ func (fr *Frame) lookupLocal(name string, at *ssa.BasicBlock, phiOverride map[*s
 			}
 		}
 	}
+	if tv, ok := fr.witness[name]; ok {
+		return tv, true
+	}
 	// DebugRefs
 	var best ssa.Value
 	var bestAddr bool
@@ -1081,6 +1085,10 @@ func (fr *Frame) encodeInstr(ins ssa.Instruction, at Term, st *State) {
 		fr.encodeAlloc(x, at, st)
 	case *ssa.FieldAddr:
 		pt := x.X.Type().Underlying().(*types.Pointer).Elem()
+		switch x.X.(type) {
+		case *ssa.FreeVar, *ssa.Global:
+			fr.places[x.X] = fr.place(x.X)
+		}
 		if base, ok := fr.places[x.X]; ok && base.Kind == "cell" {
 			si := c.structInfoOf(pt)
 			fr.places[x] = &Place{Kind: "cellfield", Heap: base.Heap, Sort: si.fields[x.Field].sort, Type: pt, Field: x.Field}
@@ -1180,7 +1188,11 @@ func (fr *Frame) encodeInstr(ins ssa.Instruction, at Term, st *State) {
 	case *ssa.ChangeType:
 		fr.vals[x] = fr.val(x.X)
 	case *ssa.ChangeInterface:
-		fr.vals[x] = fr.val(x.X)
+		v := fr.val(x.X)
+		if v.Sort == SInt && c.sortOf(x.Type()) == SAny {
+			v = Term{app(c.boxCtor(x.X.Type()), v), SAny}
+		}
+		fr.vals[x] = v
 	case *ssa.Convert:
 		fr.encodeConvert(x, at, st)
 	case *ssa.TypeAssert:
@@ -1491,6 +1503,17 @@ func (fr *Frame) encodeBinOp(x *ssa.BinOp) Term {
 	case token.REM:
 		return Term{app("mod", a, b), SInt}
 	case token.OR, token.AND, token.XOR, token.SHL, token.SHR, token.AND_NOT:
+		if x.Op == token.OR {
+			// a | 2^k for non-negative a
+			for _, pair := range [][2]ssa.Value{{x.X, x.Y}, {x.Y, x.X}} {
+				if k, ok := pair[1].(*ssa.Const); ok && k.Value != nil {
+					if n := k.Int64(); n > 0 && n&(n-1) == 0 {
+						other := fr.val(pair[0])
+						return Ite(bitSet(other, n), other, Add(other, IntLit(n)))
+					}
+				}
+			}
+		}
 		fn := "bit_" + map[token.Token]string{token.OR: "or", token.AND: "and", token.XOR: "xor", token.SHL: "shl", token.SHR: "shr", token.AND_NOT: "andnot"}[x.Op]
 		c.declareFun(fn, []Sort{SInt, SInt}, SInt)
 		return Term{app(fn, a, b), SInt}
@@ -1498,6 +1521,11 @@ func (fr *Frame) encodeBinOp(x *ssa.BinOp) Term {
 	}
 	c.errorf("%s: binary %s not supported", funcKey(fr.fn), x.Op)
 	return c.fresh("undef", c.sortOf(x.Type()))
+}
+
+// bitSet: bit log2(n) of the non-negative integer a is set (n a power of two)
+func bitSet(a Term, n int64) Term {
+	return Term{fmt.Sprintf("(= (mod (div %s %d) 2) 1)", a.S, n), SBool}
 }
 
 func (fr *Frame) encodeLookup(x *ssa.Lookup, at Term, st *State) {
